@@ -1,6 +1,6 @@
 From Coq Require Import Extraction ExtrOcamlBasic.
 From F8 Require Import Base.Conv Codec.Bytes Codec.Meta Codec.Extract Codec.Decode Codec.Encode Codec.Render
-                       C03.Bounds C03.Spec_C03.
+                       C07.Chksum C03.Bounds C03.Spec_C03.
 Extraction Language OCaml.
 Extraction "../ocaml/gen/C03/model.ml" keep_types
   cstr itoa_N itoa_Z fast_atoi_u16 fast_atoi_u32 fast_atoi_i32
@@ -10,5 +10,5 @@ Extraction "../ocaml/gen/C03/model.ml" keep_types
   real_caps mbase_decode msg_decode factory
   mb_encode msg_encode msg_encode_str
   render_default canonical
-  tokens_bounded c03_wf c03_nohang c03_nodata atoi_ub msg_ub dec_class enc_class
+  tokens_bounded c03_wf c03_nohang c03_nodata atoi_ub msg_ub chksum_ub calc_chksum dec_class enc_class
   obs_of_word c03_ok.
